@@ -398,10 +398,14 @@ class Ctx:
         return d
 
     # -- obligations
+    PROVE_KINDS = None  # None = everything; else the set of obligation kinds that are discharged in this run
+
     def oblige(self, name, goal, kind="post", hyps=()):
         """Prove `goal` (V bool / z3 Bool) under the current facts (+hyps)."""
         if self.replaying:
             return None  # already checked on the parent path with identical state
+        if Ctx.PROVE_KINDS is not None and kind not in Ctx.PROVE_KINDS:
+            return None  # roll-up runs (C20) only discharge the obligation kinds they are about
         g = to_z3_bool(goal)
         hyps = [to_z3_bool(h) for h in hyps]
         t0 = time.time()
